@@ -228,7 +228,7 @@ pub mod feig {
                         None => raw_body_ok(b, v@, k),
                     }
                 }
-                //@ fn src:zvt/src/feig/packets/tlv.rs | impl ZvtSerializerImpl<length::Tlv,Custom,TE> for Vec<u8> | deserialize_tagged | props=C02,C14
+                //@ fn src:zvt/src/feig/packets/tlv.rs | impl ZvtSerializerImpl<length::Tlv,Custom,TE> for Vec<u8> | deserialize_tagged | also=~C13 props=C02,C14,~C13
                 //@ end
                 //@ fn src:zvt/src/feig/packets/tlv.rs | impl ZvtSerializerImpl<length::Tlv,Custom,TE> for Vec<u8> | serialize_tagged | props=C03
                 //@ end
